@@ -103,7 +103,7 @@ def check(case):
     history = case.get("history") if case.get("n_train") != "same_buffer" else None
     with sut("MovingWindow.fit/transform_scores/predict"):
         spec_ = K.detector_spec("MovingWindow", params)
-        det = K.reconfigured(spec_, Xtrain) if history == "reconfigured" else K.build(spec_)
+        det = K.build_with_history(spec_, Xtrain, history)
         if history == "scorer_prefit_wide" and not K.prefit_scorer_wide(det, Xtrain):
             history = None
         det.fit(Xtrain)
